@@ -145,6 +145,7 @@ impl Session {
                 "ok".to_string()
             }
             ["fuel", _] => "ok".to_string(),
+            ["fold", ..] => "SPEC".to_string(),
             ["flags", w, t] => {
                 self.interp.enable_warnings = *w == "1";
                 self.interp.enable_tracing = *t == "1";
